@@ -1242,6 +1242,9 @@ class VM:
             return UNDEFINED
 
         if isinstance(obj, JSFunction):
+            own = getattr(obj, "_properties", None)
+            if own is not None and key_str in own:
+                return own[key_str]  # a property the script has put on the function
             # Function methods
             if key_str in ("bind", "call", "apply", "toString"):
                 return self._make_function_method(obj, key_str)
@@ -2456,6 +2459,18 @@ class VM:
 
         key_str = self._to_property_key(key)
 
+        if isinstance(obj, JSFunction):
+            # Functions are objects: F.prototype = proto, F.counter = 0, ...
+            if key_str == "prototype" and hasattr(obj, "_prototype"):
+                obj._prototype = value
+            elif key_str in ("length", "name"):
+                raise JSTypeError(f"Cannot assign to read only property '{key_str}' of function")
+            else:
+                if not hasattr(obj, "_properties"):
+                    obj._properties = {}
+                obj._properties[key_str] = value
+            return
+
         if isinstance(obj, JSTypedArray):
             numeric, idx = self._typed_array_index(key_str)
             if numeric:
@@ -2516,6 +2531,9 @@ class VM:
         if isinstance(obj, JSObject):
             key_str = self._to_property_key(key)
             return obj.delete(key_str)
+        if isinstance(obj, JSFunction):
+            getattr(obj, "_properties", {}).pop(self._to_property_key(key), None)
+            return True
         return False
 
     def _invoke_getter(self, getter: Any, this_val: JSValue) -> JSValue:
@@ -2722,7 +2740,7 @@ class VM:
             # Create new object
             obj = JSObject()
             # Set prototype from constructor's prototype property
-            if hasattr(constructor, "_prototype"):
+            if isinstance(getattr(constructor, "_prototype", None), JSObject):
                 obj._prototype = constructor._prototype
             # Call constructor with new object as 'this'
             # Mark this as a constructor call so RETURN knows to return the object
